@@ -4,7 +4,7 @@ repository's suite still passes, the demonstration still fails with / passes wit
 the recorded checks still report it.  Updates seeded/<id>/meta.json (never touches /repo)."""
 import glob, json, os, shutil, subprocess, sys, tempfile
 
-ROOT = "/verif"
+ROOT = os.environ.get("VERIF_ROOT", "/verif")
 env = dict(os.environ, PYTHONDONTWRITEBYTECODE="1")
 only = sys.argv[1:]
 
@@ -43,7 +43,7 @@ try:
                 res = {}
                 for cid in meta["checks"]:
                     rc, out = sh(f"./check {cid} --tier quick", cwd=ROOT, extra={"VERIF_REPO": mut})
-                    line = next((l for l in out.splitlines() if "violated:" in l), "")
+                    line = next((l for l in out.splitlines() if " violated" in l), "")
                     res[cid] = {"exit": rc, "verdict": "CAUGHT" if rc == 1 and "VIOLATION property=" in out else ("MISSED" if rc == 0 else f"ERROR({rc})"), "first_violation": line.strip()[:400]}
                 ok = "140 passed" in t and rc_clean == 0 and rc_mut != 0 and res[meta["property"]]["verdict"] == "CAUGHT"
                 bad += 0 if ok else 1
